@@ -1,6 +1,7 @@
 package wirew
 
 import (
+	"bufio"
 	"bytes"
 	"context"
 	"errors"
@@ -84,6 +85,18 @@ func genRequest() request {
 			bs[i] = byte(i*13 + 1)
 		}
 		r.Body.Fields = append(r.Body.Fields, ref.Field{ID: 3000, V: ref.Bin(bs)})
+	}
+	if simrt.Flip("env.deep-body", 0.01) {
+		// a body nested dozens of levels deep: a linked list of structs, some links through a list
+		v := ref.Struct(ref.F(1, ref.I32(7)))
+		for i, n := 0, []int{40, 63, 64, 65, 66, 100}[ch("env.deep-levels", 6)]; i < n; i++ {
+			if ch("env.deep-link", 3) == 1 {
+				v = ref.Struct(ref.F(2, ref.List(ref.TStruct, v)))
+			} else {
+				v = ref.Struct(ref.F(1, v))
+			}
+		}
+		r.Body = v
 	}
 	r.F = framing(ch("env.framing", 3))
 	return r
@@ -802,6 +815,17 @@ func c12Agreement(res *world.Result, logf func(string, ...interface{}), h *world
 	r2 := readRequest(et, fr, fraw)
 	logf("DecodeRequest -> %s", r1)
 	logf("ReadRequest (full delivery) -> %s", r2)
+	// the same bytes behind a buffered reader (which offers Peek) of a small or ordinary size
+	br, _ := simio.NewReader(b, full)
+	r3 := readRequest(et, bufio.NewReaderSize(br, []int{16, 4096}[ch("c12.bufio-size", 2)]), nil)
+	if r3.panic != "" {
+		res.Failf("C12/panic", "ReadRequest through a bufio.Reader panicked on %x: %s", clip(b, 64), r3.panic)
+		return
+	}
+	if r2.panic == "" && !r2.budget && (r3.ok != r2.ok || (r3.ok && (r3.kind != r2.kind || r3.name != r2.name || r3.seqid != r2.seqid || !bytes.Equal(ref.Encode(nil, r3.body), ref.Encode(nil, r2.body))))) {
+		res.Failf("C12/buffered-reader-disagrees", "%x: ReadRequest over the plain reader -> %s, through a bufio.Reader -> %s", clip(b, 64), r2, r3)
+		return
+	}
 	h.Str(r1.String())
 	h.Str(r2.String())
 	for _, x := range []struct {
